@@ -122,6 +122,9 @@ func collectSilent(p *Program, pkgs []string) []silentSite {
 							}
 						}
 					}
+					if !used && cleanupOnFailurePath(cl) {
+						return // closing / releasing something on the way out with an error: there is nothing to do with a second error
+					}
 					if !used {
 						pos := cl.Pos()
 						if !pos.IsValid() {
@@ -365,4 +368,33 @@ func runSilentFail(c *Ctx, pkgs []string) {
 	if len(keys) == 0 {
 		c.PassTrivial(strings.Join(pkgs, ","), "failure-consumed", "-", "every failure path consumes its error")
 	}
+}
+
+// cleanupOnFailurePath: a Close / Discard / Release / Remove whose block ends in a return that hands back an
+// error which is not the nil constant.
+func cleanupOnFailurePath(cl *ssa.Call) bool {
+	name := ""
+	if cl.Call.IsInvoke() {
+		name = cl.Call.Method.Name()
+	} else if sc := cl.Call.StaticCallee(); sc != nil {
+		name = sc.Name()
+	}
+	if !releaseNames[name] && name != "Remove" {
+		return false
+	}
+	b := cl.Block()
+	ret, ok := b.Instrs[len(b.Instrs)-1].(*ssa.Return)
+	if !ok {
+		return false
+	}
+	for i := range ret.Results {
+		r := returnedValue(ret, i)
+		if isErrorType(r.Type()) {
+			if k, isK := r.(*ssa.Const); isK && k.Value == nil {
+				return false
+			}
+			return true
+		}
+	}
+	return false
 }
